@@ -2,7 +2,10 @@
 
 package hap
 
-import "net"
+import (
+	"net"
+	"sync"
+)
 
 // Verification hooks (see verif_on.go). Without the "verif" build tag they are
 // empty and inlined away.
@@ -10,3 +13,5 @@ import "net"
 func verifYield(op string, con net.Conn, b []byte) {}
 
 func verifOrderConns(cs []net.Conn) []net.Conn { return cs }
+
+func verifBeforeLock(m *sync.Mutex) {}
